@@ -1,4 +1,4 @@
-// C11 part 1: instantiations for 64-bit integers
+// C11 part 1: instantiations for 64-bit integers (long)
 #include "harness/c11_cells.hh"
 namespace c11 {
 using namespace PPL;
@@ -16,5 +16,5 @@ template <class T> static void reg_mp() {
   Runner<CNW<T, PD> >::register_all(); Runner<CNW<T, PW> >::register_all();
   Runner<CNW<T, Checked_Number_Transparent_Policy<T> > >::register_all(); Runner<RAWW<T> >::register_all();
 }
-void register_int64() { reg_int<long>(); reg_int<unsigned long>(); reg_int<long long>(); reg_int<unsigned long long>(); }
+void register_int64() { reg_int<long>(); reg_int<unsigned long>(); }
 }
